@@ -1,4 +1,5 @@
 import PortusModel.Props.C10
+import PortusModel.Props.Tables
 #print axioms Portus.C10.new_with_scope_no_panic
 #print axioms Portus.C10.compile_no_panic
 #print axioms Portus.C10.compile_and_serialize_no_panic
@@ -7,3 +8,6 @@ import PortusModel.Props.C10
 #print axioms Portus.Lang.compileExpr_spec
 #print axioms Portus.Lang.parseSource_NoDef
 #print axioms Portus.Lang.declareAll_spec
+#print axioms Portus.Tables.src_opcodes_eq
+#print axioms Portus.Tables.src_regEnc_eq
+#print axioms Portus.Tables.allOps_complete
